@@ -545,20 +545,40 @@ impl EpochDifficultyTrend {
         let mut total = U256::zero();
         let tau_u256 = U256::from(tau);
         let check_max = matches!(limit, EstimatedLimit::Max);
+        // The estimated limit doesn't fit into 256 bits, but the actual total difficulty does:
+        // so it couldn't be greater than the upper limit and it must be less than the lower limit.
+        let limit_is_overflow = |check_max: bool,
+                                 total: &U256,
+                                 curr: &U256,
+                                 index: u64,
+                                 epochs_count: u64,
+                                 state: &str|
+         -> Result<(), String> {
+            if check_max {
+                debug!("check total difficulty: not greater than upper limit (overflow)");
+                Ok(())
+            } else {
+                let errmsg = format!(
+                    "failed since total difficulty ({actual:#x}) is less than \
+                    the lower limit (overflow at {total:#x} + {curr:#x}, {state} {index}/{epochs_count}) \
+                    with start epoch difficulty {start:#x}, n: {n}, k: {k}"
+                );
+                Err(errmsg)
+            }
+        };
         for group in &[details.start, details.end] {
             match group {
                 EpochCountGroupByTrend::Decreased(epochs_count) => {
                     let state = "decreased";
                     for index in 0..*epochs_count {
                         curr /= tau;
-                        total = total.checked_add(&curr).unwrap_or_else(|| {
-                            panic!(
-                                "overflow when calculate the limit of total difficulty, \
-                                total: {}, current: {}, index: {}/{}, tau: {}, \
-                                state: {}, trend: {:?}, details: {:?}",
-                                total, curr, index, epochs_count, tau, state, self, details
+                        total = if let Some(total) = total.checked_add(&curr) {
+                            total
+                        } else {
+                            return limit_is_overflow(
+                                check_max, &total, &curr, index, *epochs_count, state,
                             );
-                        });
+                        };
                         if total >= *actual {
                             if check_max {
                                 debug!("check total difficulty: not greater than upper limit (short-circuit)");
@@ -578,14 +598,13 @@ impl EpochDifficultyTrend {
                     let state = "increased";
                     for index in 0..*epochs_count {
                         curr = curr.saturating_mul(&tau_u256);
-                        total = total.checked_add(&curr).unwrap_or_else(|| {
-                            panic!(
-                                "overflow when calculate the limit of total difficulty, \
-                                total: {}, current: {}, index: {}/{}, tau: {}, \
-                                state: {}, trend: {:?}, details: {:?}",
-                                total, curr, index, epochs_count, tau, state, self, details
+                        total = if let Some(total) = total.checked_add(&curr) {
+                            total
+                        } else {
+                            return limit_is_overflow(
+                                check_max, &total, &curr, index, *epochs_count, state,
                             );
-                        });
+                        };
                         if total >= *actual {
                             if check_max {
                                 debug!("check total difficulty: not greater than upper limit (short-circuit)");
@@ -603,8 +622,13 @@ impl EpochDifficultyTrend {
                 }
             }
         }
+        let total_with_unaligned = if let Some(sum) = total.checked_add(unaligned) {
+            sum
+        } else {
+            return limit_is_overflow(check_max, &total, unaligned, 0, 0, "unaligned");
+        };
         if check_max {
-            if &total + unaligned >= *actual {
+            if total_with_unaligned >= *actual {
                 debug!("check total difficulty: not greater than upper limit (fully-calculated)");
                 Ok(())
             } else {
@@ -614,7 +638,7 @@ impl EpochDifficultyTrend {
                 );
                 Err(errmsg)
             }
-        } else if &total + unaligned <= *actual {
+        } else if total_with_unaligned <= *actual {
             debug!("check total difficulty: not less than lower limit (fully-calculated)");
             Ok(())
         } else {
@@ -975,10 +999,18 @@ pub(crate) fn verify_tau(
     } else {
         let start_block_difficulty = compact_to_difficulty(start_compact_target);
         let end_block_difficulty = compact_to_difficulty(end_compact_target);
-        let start_epoch_difficulty = start_block_difficulty * start_epoch.length();
-        let end_epoch_difficulty = end_block_difficulty * end_epoch.length();
+        let start_epoch_difficulty =
+            start_block_difficulty.saturating_mul(&U256::from(start_epoch.length()));
+        let end_epoch_difficulty =
+            end_block_difficulty.saturating_mul(&U256::from(end_epoch.length()));
         // How many times are epochs switched?
-        let epochs_switch_count = end_epoch.number() - start_epoch.number();
+        let epochs_switch_count =
+            if let Some(count) = end_epoch.number().checked_sub(start_epoch.number()) {
+                count
+            } else {
+                error!("failed: the epochs are not in order");
+                return Err(StatusCode::InvalidCompactTarget.into());
+            };
         let epoch_difficulty_trend =
             EpochDifficultyTrend::new(&start_epoch_difficulty, &end_epoch_difficulty);
         Ok(epoch_difficulty_trend.check_tau(tau, epochs_switch_count))
@@ -1006,9 +1038,21 @@ pub(crate) fn verify_total_difficulty(
     let total_difficulty = end_total_difficulty - start_total_difficulty;
     let start_block_difficulty = &compact_to_difficulty(start_compact_target);
 
+    let overflow_errmsg = || {
+        format!(
+            "failed since the calculation is overflow during epochs ([{:#},{:#}])",
+            start_epoch, end_epoch
+        )
+    };
+
     if start_epoch.number() == end_epoch.number() {
-        let total_blocks_count = end_epoch.index() - start_epoch.index();
-        let total_difficulty_calculated = start_block_difficulty * total_blocks_count;
+        let total_blocks_count = end_epoch
+            .index()
+            .checked_sub(start_epoch.index())
+            .ok_or_else(overflow_errmsg)?;
+        let total_difficulty_calculated = start_block_difficulty
+            .checked_mul(&U256::from(total_blocks_count))
+            .ok_or_else(overflow_errmsg)?;
         if total_difficulty != total_difficulty_calculated {
             let errmsg = format!(
                 "failed since total difficulty is {:#x} \
@@ -1026,10 +1070,17 @@ pub(crate) fn verify_total_difficulty(
     } else {
         let end_block_difficulty = &compact_to_difficulty(end_compact_target);
 
-        let start_epoch_difficulty = start_block_difficulty * start_epoch.length();
-        let end_epoch_difficulty = end_block_difficulty * end_epoch.length();
+        let start_epoch_difficulty = start_block_difficulty
+            .checked_mul(&U256::from(start_epoch.length()))
+            .ok_or_else(overflow_errmsg)?;
+        let end_epoch_difficulty = end_block_difficulty
+            .checked_mul(&U256::from(end_epoch.length()))
+            .ok_or_else(overflow_errmsg)?;
         // How many times are epochs switched?
-        let epochs_switch_count = end_epoch.number() - start_epoch.number();
+        let epochs_switch_count = end_epoch
+            .number()
+            .checked_sub(start_epoch.number())
+            .ok_or_else(overflow_errmsg)?;
         let epoch_difficulty_trend =
             EpochDifficultyTrend::new(&start_epoch_difficulty, &end_epoch_difficulty);
 
@@ -1045,10 +1096,19 @@ pub(crate) fn verify_total_difficulty(
             })?;
 
         // Step-2 Check the range of total difficulty.
-        let start_epoch_blocks_count = start_epoch.length() - start_epoch.index() - 1;
+        let start_epoch_blocks_count = start_epoch
+            .length()
+            .checked_sub(start_epoch.index() + 1)
+            .ok_or_else(overflow_errmsg)?;
         let end_epoch_blocks_count = end_epoch.index() + 1;
-        let unaligned_difficulty_calculated = start_block_difficulty * start_epoch_blocks_count
-            + end_block_difficulty * end_epoch_blocks_count;
+        let unaligned_difficulty_calculated = start_block_difficulty
+            .checked_mul(&U256::from(start_epoch_blocks_count))
+            .and_then(|start_part| {
+                end_block_difficulty
+                    .checked_mul(&U256::from(end_epoch_blocks_count))
+                    .and_then(|end_part| start_part.checked_add(&end_part))
+            })
+            .ok_or_else(overflow_errmsg)?;
         if epochs_switch_count == 1 {
             if total_difficulty != unaligned_difficulty_calculated {
                 let errmsg = format!(
